@@ -584,6 +584,7 @@ def verify_fragment(world, contract, report=None, only_cfg=None, scope=None, dea
                 pid = ''.join('1' if d else '0' for d in ctx.taken) or 'e'
                 try:
                     after = NS(**fr.env)
+                    contract._ctx = ctx      # ghost state of the path (axiom instances a clause may want to name)
                     for label, f in contract.post_env(before, after, outcome, cfg):
                         ctx.oblige('p%s/ensures:%s' % (pid, label), f, 'ensures')
                 except Unsupported as e:
